@@ -234,3 +234,18 @@ M("C03", "whitener rescales scores", "xeofs/preprocessing/whitener.py", "origina
 B("C03", "commuting factors reordered in transform", SC, '        if params["with_coslat"]:\n            X = X * self.coslat_weights_\n\n        X = X * self.weights_\n        return X', '        X = X * self.weights_\n        if params["with_coslat"]:\n            X = X * self.coslat_weights_\n\n        return X')
 B("C03", "rename data2D", BS, "        data2D = self.preprocessor.transform(data)\n        data2D = self._transform_algorithm(data2D)", "        stacked = self.preprocessor.transform(data)\n        data2D = self._transform_algorithm(stacked)")
 B("C03", "inverse hoists params lookup", SC, '        X = X / self.weights_\n        if params["with_coslat"]:', '        w = self.weights_\n        X = X / w\n        if params["with_coslat"]:')
+
+# ---------------------------------------------------------------- C05
+M("C05", "single transform uses fitted path", BS, "        return self.preprocessor.inverse_transform_scores_unseen(data2D)", "        return self.preprocessor.inverse_transform_scores(data2D)", "UNSEEN.path")
+M("C05", "cross transform uses fitted path", BC, "            X = self.preprocessor1.inverse_transform_scores_unseen(X)\n            data_list.append(X)", "            X = self.preprocessor1.inverse_transform_scores(X)\n            data_list.append(X)", "UNSEEN.path")
+M("C05", "rotator transform uses fitted path", "xeofs/cross/cpcca_rotator.py", "            projections2 = self.preprocessor2.inverse_transform_scores_unseen(\n                projections2\n            )", "            projections2 = self.preprocessor2.inverse_transform_scores(projections2)", "UNSEEN.path")
+M("C05", "unseen converter uses fit reference", "xeofs/preprocessing/multi_index_converter.py", '        return self._inverse_transform(X, reference="transform")', '        return self._inverse_transform(X, reference="fit")', "UNSEEN.pure")
+M("C05", "sanitizer unseen reindexes", "xeofs/preprocessing/sanitizer.py", "        # Don't check sample coords for unseen data\n        return X", "        return X.reindex({self.sample_name: self.sample_coords.values})", "UNSEEN.pure")
+M("C05", "preprocessor unseen loop calls fitted", "xeofs/preprocessing/preprocessor.py", "            X_it = transformer.inverse_transform_scores_unseen(X_it)", "            X_it = transformer.inverse_transform_scores(X_it)", "UNSEEN.path")
+M("C05", "list transformer unseen delegates to fitted", "xeofs/preprocessing/list_processor.py", "        return self.transformers[0].inverse_transform_scores_unseen(X)", "        return self.transformers[0].inverse_transform_scores(X)", "UNSEEN.path")
+M("C05", "predict labels via preprocessor2", BC, "        Y = self.preprocessor1.inverse_transform_scores_unseen(Y)\n\n        return Y", "        Y = self.preprocessor2.inverse_transform_scores_unseen(Y)\n\n        return Y", "PRECEDE")
+M("C05", "scaler centres on new data", SC, "            X = X - self.mean_\n", "            X = X - X.mean(self.sample_dims)\n", "PERSAMPLE")
+M("C05", "eof transform removes sample mean", EOFPY, "        projections = xr.dot(X, components, dims=feature_name)\n        projections.name = \"scores\"\n", "        projections = xr.dot(X, components, dims=feature_name)\n        projections = projections - projections.mean(self.sample_name)\n        projections.name = \"scores\"\n", "PERSAMPLE", accept_error=False)
+M("C05", "whitener rescales by new std", "xeofs/preprocessing/whitener.py", "            transformed = xr.dot(X, self.T, dims=self.feature_name)\n            transformed.name = X.name", "            transformed = xr.dot(X, self.T, dims=self.feature_name)\n            transformed = transformed / X.std(self.sample_name)\n            transformed.name = X.name", "PERSAMPLE")
+B("C05", "unseen path through local alias", BS, "        return self.preprocessor.inverse_transform_scores_unseen(data2D)", "        restore = self.preprocessor.inverse_transform_scores_unseen\n        return restore(data2D)", accept_error=True)
+B("C05", "mask uses reduction along samples", "xeofs/preprocessing/sanitizer.py", "        X_valid_features = self._get_valid_features(X)\n        X_valid_samples", "        X_valid_features = X.notnull().any(self.sample_name)\n        X_valid_samples")
